@@ -133,7 +133,7 @@ fn check_hooks(code_lens: &BTreeMap<usize, Vec<bool>>, o: &mut Outcome, what: &s
 }
 
 pub fn batch(index: u64, rng: Rng, tier: Tier) -> Outcome {
-    batch_n(index, rng, tier.pick(220, 500))
+    batch_n(index, rng, tier.pick(220, 220))
 }
 
 /// `vh evm-mini <seed> <n>`: the same monitors over a short batch, as the workload of the Miri /
@@ -153,6 +153,12 @@ pub fn batch_n(index: u64, mut rng: Rng, n: u64) -> Outcome {
     let accts = make_accounts(&v, 2, 18_000 + index, &fil(1000));
     let from = accts[0];
     hook::reset(STEP_WATCHDOG, MEM_CAP);
+    // every other batch runs without the kernel's read-only backstop for events (TestVM semantics):
+    // there only the interpreter's own guard keeps a LOG beneath STATICCALL from taking effect
+    v.lenient_read_only_events.set(index % 2 == 1);
+    if index % 2 == 1 {
+        o.count("batches_without_kernel_event_backstop");
+    }
     // fixtures for the read-only part
     let sink = deploy_runtime(&v, &from, &effectful_runtime(&[0x11; 20])).expect("sink");
     let eff = deploy_runtime(&v, &from, &effectful_runtime(&sink.eth)).expect("effectful");
@@ -347,7 +353,7 @@ pub fn run(cfg: &Cfg) -> i32 {
     });
     agg.finish(
         "exploration",
-        "one evaluation = a batch of 220-500 runs in one world: arbitrary byte strings (random with a bias to defined opcodes, mutations of structured programs, stack-limit programs at 1021-1025 items) deployed as runtime code and invoked with random calldata, arbitrary bytes run as init code, and static wrappers that STATICCALL (depth 1-3) a callee attempting SSTORE / TSTORE / LOG / CALL with value / CREATE / CREATE2 / SELFDESTRUCT / a nested CALL that writes / DELEGATECALL to writing code. Monitors: no panic, interpreter hooks (stack high-water mark <= 1024, memory <= cap, every taken jump lands on a byte my own analysis marks as JUMPDEST outside push data, step watchdog), MVM state-tree roots equal around every read-only invocation, no events, no value, no storage, no tombstone. Non-trivial batch = at least 100 runs",
+        "one evaluation = a batch of 220 runs in one world: arbitrary byte strings (random with a bias to defined opcodes, mutations of structured programs, stack-limit programs at 1021-1025 items) deployed as runtime code and invoked with random calldata, arbitrary bytes run as init code, and static wrappers that STATICCALL (depth 1-3) a callee attempting SSTORE / TSTORE / LOG / CALL with value / CREATE / CREATE2 / SELFDESTRUCT / a nested CALL that writes / DELEGATECALL to writing code. Monitors: no panic, interpreter hooks (stack high-water mark <= 1024, memory <= cap, every taken jump lands on a byte my own analysis marks as JUMPDEST outside push data, step watchdog), MVM state-tree roots equal around every read-only invocation, no events, no value, no storage, no tombstone. Non-trivial batch = at least 100 runs",
         tier.pick(200, 5000),
         &["interpreter hooks (cargo feature verif-hooks of fil_actor_evm) are additive observation points; the step watchdog and memory cap turn runaway programs into inconclusive runs", "Miri / ASan passes over the interpreter are separate commands (see DESIGN.md 2.5)"],
         serde_json::json!({"sanitizers": std::env::var("VH_SANITIZER_REPORT").ok().and_then(|p| std::fs::read_to_string(p).ok()).and_then(|s| serde_json::from_str::<serde_json::Value>(&s).ok()).unwrap_or(serde_json::json!("not run in this invocation (use /verif/check C18 <tier>)"))}),
